@@ -374,7 +374,10 @@ def atEnd (p : Params) (tr : List Obs) (b : Book) (e : EndInfo) : List Viol :=
   | some f =>
     let exited := tr.filterMap (fun o => match o with | .exit _ k oc => some (k, oc) | _ => none)
     let failed := (exited.filter (fun (_, oc) => oc == 2 || (oc == 1 && p.kind != "plain"))).length
+    let offers := (tr.filter (fun o => match o with | .errOffer _ => true | _ => false)).length
     (if f.counts.failed != failed && !p.gate then [s!"Failed={f.counts.failed} but {failed} invocations failed or panicked"] else [])
+    -- the offer on Errs() is a non-blocking send on a 1-slot channel: later offers may find it full, the first one cannot
+    ++ (if p.errs && failed ≥ 1 && offers == 0 then [s!"{failed} invocation(s) failed or panicked but nothing was ever offered on Errs() (a reader was waiting, the channel was empty)"] else [])
   | none => []
 
 def check (p : Params) (tr : List Obs) (e : EndInfo) : List Viol :=
